@@ -8,7 +8,7 @@
     ([tok_ok]); the only strings it cannot render start with the shape-name
     sentinel '%' without being of the form %<...> ([C04_tune_token_none]),
     which no IRI / datatype of a valid document does.  With disjunctions
-    enabled the stage can raise ([C04_choice_prune_refuted]: a disjunction
+    enabled the stage can raise ([C04_clean_error_iff], [C04_choice_prune_run_refuted] -- before the repair a3b99df --: a disjunction
     next to an empty shape under remove_empty_shapes -- reachable only through
     a shape-map label whose node has no triples). *)
 From Coq Require Import List Ascii String ZArith NArith Bool.
